@@ -388,12 +388,7 @@ func (c *m2) errExpr(e ast.Expr) {
 	switch e := e.(type) {
 	case *ast.CallExpr:
 		if path, name, ok := c.pkgCall(e); ok && (path == "errors" && name == "New" || path == "fmt" && name == "Errorf") {
-			for _, a := range e.Args {
-				if c.mt(c.typeOf(a), a).k == mErr {
-					continue
-				}
-				c.ex(a)
-			}
+			c.fmtArgs(e)
 			return
 		}
 	case *ast.Ident:
@@ -595,7 +590,7 @@ func (c *m2) letVar(id *ast.Ident, term string, ind string) {
 	name := coqName(id.Name)
 	if n := len(c.pend); n > 0 {
 		pre := "do " + term + " <- "
-		if strings.HasPrefix(c.pend[n-1], pre) && strings.HasSuffix(term, "_") {
+		if strings.HasPrefix(c.pend[n-1], pre) && isTempName(term) {
 			c.pend[n-1] = "do " + name + " <- " + strings.TrimPrefix(c.pend[n-1], pre)
 			c.flush(ind)
 			return
@@ -653,7 +648,7 @@ func (c *m2) fieldObj(path string, t types.Type) types.Object {
 	if o, ok := c.fieldObjs[path]; ok {
 		return o
 	}
-	o := types.NewVar(c.fn.Pos(), nil, path, t)
+	o := types.NewVar(c.fn.Pos(), nil, synthMark+path, t)
 	c.fieldObjs[path] = o
 	return o
 }
@@ -1134,9 +1129,10 @@ func (c *m2) loopShape(s ast.Stmt, st []types.Object) loopShape {
 			return coqName(id.Name)
 		}
 		k, v := name(s.Key), name(s.Value)
-		if xt.str && v != "_" {
-			c.note(s, "range over a string taken byte by byte (exact when every byte < 128)")
-			c.fail(s, "range over a string with an element variable (runes are not modelled)")
+		if xt.str {
+			// (phase 5, H9) Go iterates over the RUNES of a string: the index jumps over multi-byte sequences and
+			// the number of iterations is the number of runes, also without an element variable
+			c.fail(s, "range over a string (Go iterates over runes, which are not modelled; index the string byte by byte instead)")
 		}
 		switch {
 		case k == "_" && v == "_":
